@@ -355,5 +355,27 @@ func runC09(p *core.Prog, r *core.Report, tier string) {
 			}
 		}
 		r.Check(okZero, rule, f.String(), "snapshotSize-not-cleared", f.Pos(), "a successful flush gives the snapshot's size back (snapshotSize = 0)")
+		// … and ONLY a successful one: after ClearSnapshot(false) the snapshot's values are
+		// kept for the retry, so its size must keep counting against the limit.
+		g := f.Graph()
+		success := f.Obj.Type().(*types.Signature).Params().At(0)
+		onSuccess := core.AtomEdge(func(x ast.Expr, val bool) bool { return val && core.ObjOf(info, x) == success })
+		reach := g.ReachFromEntry(nil, onSuccess)
+		touches := func(n *core.Node) bool {
+			hit := false
+			for _, c := range core.CallsIn(info, n.N, call("sync/atomic.StoreUint64", "sync/atomic.SwapUint64", "sync/atomic.AddUint64", "sync/atomic.CompareAndSwapUint64"), core.WalkOpts{}) {
+				if len(c.Args) >= 1 {
+					if u, ok := ast.Unparen(c.Args[0]).(*ast.UnaryExpr); ok {
+						if se, ok := ast.Unparen(u.X).(*ast.SelectorExpr); ok && core.FieldOf(info, se) == snapSizeF {
+							hit = true
+						}
+					}
+				}
+			}
+			return hit
+		}
+		for _, n := range g.Select(func(n *core.Node) bool { return n.N != nil && touches(n) }) {
+			r.Check(!reach[n], rule, f.String(), "snapshotSize-changed-on-failure", g.Line(n), "snapshotSize is modified only on the success branch (a failed flush keeps the snapshot and its accounted size)")
+		}
 	}
 }
